@@ -23,6 +23,8 @@ VARIANTS = {
     "extra": (["INCLUDES=-DEAV_EXTRA"], ["-DEAV_EXTRA"]),
     # assertions compiled out, as in a release build
     "ndebug": (["INCLUDES=-DNDEBUG"], ["-DNDEBUG"]),
+    # the default build, made in a tree in which all three options were built before (`make clean` in between): README's way to change options
+    "rebuilt": ([], []),
 }
 
 
@@ -59,6 +61,9 @@ def build_variant(scr, name):
     tested) under ASan+UBSan, then the harness against it; returns the path of the harness binary"""
     mk, defs = VARIANTS[name]
     d = scr.copy_repo("v_" + name.replace("+", "_"))
+    if name == "rebuilt":
+        subprocess.run(["make", "-C", d, "-j4", "libeav.a", "CC=" + CC, "CFLAGS=" + SAN, "FORCE_IDN=idn2"] + VARIANTS["all3"][0], stdout=subprocess.PIPE, stderr=subprocess.STDOUT)
+        subprocess.run(["make", "-C", d, "clean"], stdout=subprocess.PIPE, stderr=subprocess.STDOUT)
     cmd = ["make", "-C", d, "-j4", "libeav.a", "CC=" + CC, "CFLAGS=" + SAN, "FORCE_IDN=idn2"] + mk
     p = subprocess.run(cmd, stdout=subprocess.PIPE, stderr=subprocess.STDOUT)
     if p.returncode != 0:
